@@ -42,6 +42,10 @@ SSClause == LET p == Ev.p  inv == Ev.inv IN
             ELSE IF ~(DvSSDomain(Ev.res, ~inv) /\ DvLtrMin(Ev.res) = DvLtrMin(p)) THEN "SimionSchmidtImage"
             ELSE IF Ev.res # DvSSPaper(p, inv) THEN "SimionSchmidtImage"
             ELSE ""
+\* inputs of more than a thousand entries that lie outside the domain through an occurrence found early by nested quantifiers
+\* (PContainsQ): they must be rejected like short ones
+TSSLong == /\ Ev.op = "SSLong"
+           /\ Judge(PContainsQ(Ev.p, IF Ev.inv THEN <<0, 2, 1>> ELSE <<0, 1, 2>>) => (Ev.raised /\ Ev.exc = "ValueError"), "DomainRejected")
 TSS == Ev.op = "SS" /\ \E c \in {SSClause} : Judge(c = "", c)
 
 FamClause == LET v == DvFamily(Ev.name, Ev.p) IN
@@ -59,6 +63,6 @@ TGroup == Ev.op = "Group" /\
                 /\ Cardinality(T) = (IF Ev.n < 3 THEN 0 ELSE 2 * Ev.n), "DihedralGroupExact")
 
 TInit == l = 1 /\ bad = <<>>
-TNext == l <= Len(Trace) /\ l' = l + 1 /\ (TPass \/ TPassChain \/ TSortable \/ TWest \/ TCount \/ TSS \/ TFamily \/ TGroup)
+TNext == l <= Len(Trace) /\ l' = l + 1 /\ (TPass \/ TPassChain \/ TSortable \/ TWest \/ TCount \/ TSS \/ TSSLong \/ TFamily \/ TGroup)
 TraceDone == l = Len(Trace) + 1 => PrintT(ToJson([verdict |-> bad, drift |-> <<>>, n |-> Len(Trace)]))
 =============================================================================
